@@ -272,22 +272,6 @@ end geometry
 
 /-! ### interaction-matrix structure -/
 
-/-- two systems given by index vectors are the same system (NUMODIS `GSystem::operator==` on vectors
-of equal length: collinear, here equal up to sign) -/
-def sameSys3 (g h : Sys3) : Prop := g.1.rep = h.1.rep ∧ g.2.rep = h.2.rep
-
-instance (g h : Sys3) : Decidable (sameSys3 g h) := by unfold sameSys3; infer_instance
-
-/-- the classifying relation of `Hardening::getRankInteraction`: the ordered pair (g1, g2) is mapped to
-(h1, h2) by one operation of the group -/
-def related3 (g1 g2 h1 h2 : Sys3) : Prop :=
-  ∃ p ∈ allP6, ∃ sx ∈ allBool, ∃ sy ∈ allBool, ∃ sz ∈ allBool,
-    sameSys3 (g1.1.act p sx sy sz, g1.2.act p sx sy sz) h1 ∧
-    sameSys3 (g2.1.act p sx sy sz, g2.2.act p sx sy sz) h2
-
-instance (g1 g2 h1 h2 : Sys3) : Decidable (related3 g1 g2 h1 h2) := by
-  unfold related3; infer_instance
-
 /-
   Full statement of the property's last clause (NOT provable — false for the model and for the code):
     rank (g1, g2) = rank (g2, g1)   for all systems g1 g2 of a description,
